@@ -720,22 +720,22 @@ def rule_l(ctx):
 
 def run(ctx):
     from .common import rule_abs_tolerance
-    rule_abs_tolerance(ctx, "C08.j", [f for f in ctx.model.cls(WAS, BASE).methods.values()] + [f for k in ctx.model.mod("darsia.utils.linalg").classes.values() for f in k.methods.values()], "all formulations must agree for every positive weighting and right-hand side")
+    ctx.guard(rule_abs_tolerance, ctx, "C08.j", [f for f in ctx.model.cls(WAS, BASE).methods.values()] + [f for k in ctx.model.mod("darsia.utils.linalg").classes.values() for f in k.methods.values()], "all formulations must agree for every positive weighting and right-hand side")
     m = ctx.model
     ctx.consult(WAS)
     base = m.cls(WAS, BASE)
     sa = StateAnalysis(m, base, ["linear_solve"])
     fa, ta, acc_f, acc_t, setup, ls = rule_a(ctx, sa)
-    rule_b(ctx, sa, fa, acc_f, setup, ls)
-    rule_c(ctx, sa, fa, acc_f, ls)
-    rule_d(ctx, sa, fa, ta, acc_f, acc_t, setup, ls)
-    rule_e(ctx)
-    rule_f(ctx)
-    rule_g(ctx)
-    rule_h(ctx)
-    rule_i(ctx, fa, ta, acc_f, acc_t, ls)
-    rule_k(ctx, ls)
-    rule_l(ctx)
+    ctx.guard(rule_b, ctx, sa, fa, acc_f, setup, ls)
+    ctx.guard(rule_c, ctx, sa, fa, acc_f, ls)
+    ctx.guard(rule_d, ctx, sa, fa, ta, acc_f, acc_t, setup, ls)
+    ctx.guard(rule_e, ctx)
+    ctx.guard(rule_f, ctx)
+    ctx.guard(rule_g, ctx)
+    ctx.guard(rule_h, ctx)
+    ctx.guard(rule_i, ctx, fa, ta, acc_f, acc_t, ls)
+    ctx.guard(rule_k, ctx, ls)
+    ctx.guard(rule_l, ctx)
     # callers of linear_solve: a reused factorisation must belong to the matrix being solved (C04.g)
     from . import c04
     from .common import shared
